@@ -68,7 +68,30 @@ LITERALS = [
     "let x = true; let y = false; let z = NULL;",
     "let x = {};", "let x = [];", "let x = {a = {}};", "let x = [[]];",
     'let x = {"quoted field" = 1};', 'let x = {"a" = 1};', 'let x = t."quoted field";',
+    # a float literal beyond f64 (reads as infinity) and one below it (reads as 0.0)
+    "let x = 1" + "0" * 309 + ".0;", "let x = 0." + "0" * 330 + "1;", "let x = 1" + "0" * 308 + ".0;",
+    # non-ASCII text together with a character the printer escapes, in every place a string can stand
+    'let x = "é\"q";', 'let x = "日本\\";', 'let x = "😀\"\\é";', 'let x = {"é\"k" = 1};', 'let x = t."é\"k";', 'let x = "é\"@" % (1);',
+    'let x = include str "é\"f.txt";', 'let x = import "é\\g.ucg";', 'let x = fail "é\"m";', 'assert {ok = true, desc = "é\"d"};',
+    'let x = "é\"@{item}" % 1;', 'let x = "a" ~ "é\"r";', 'let x = "é\n\"";',
 ]
+
+# Comment groups after the last statement, before a closing brace and in files that hold nothing else: 0..3 groups of
+# 1..2 lines each, separated by blank lines (the printer flushes what is left at the end of the file)
+def trailing_comment_texts():
+    groups = [["// g1"], ["// g1a", "// g1b"]]
+    bodies = ["", "let a = 1;\n", "let a = 1;\nlet b = {\n    c = 1,\n};\n", "let t = {\n    a = 1,\n    // before the brace\n};\n"]
+    for body in bodies:
+        for n in range(0, 4):
+            for shape in itertools.product(range(len(groups)), repeat=n):
+                blocks = ["\n".join(x.replace("g1", "g%d" % (i + 1)) for x in groups[g]) for i, g in enumerate(shape)]
+                for sep in ("\n\n", "\n\n\n"):
+                    text = body + sep.join(blocks) + ("\n" if blocks else "")
+                    if text.strip():
+                        yield text
+                        if blocks:
+                            yield body + "\n" + sep.join(blocks)          # a blank line first, no line break at the end
+
 
 
 def comments_trimmed(text):
@@ -187,7 +210,8 @@ def run(ctx):
     ctx.bounds = {"canonical_forms": len(CANON), "gap_separators": len(GAP_SEPS), "gaps_at_once": 2 if thorough else 1, "literal_forms": len(LITERALS)}
     ctx.rule = ("C01 strata S1, S2, S3-pairs, S4 printed to source; %d canonical statement forms (every statement and expression kind incl. "
                 "constraints, out, assert, import, include, convert, range with step) with each of %d separators (blank, tab, LF, CRLF, "
-                "indentation, four comment placements) at every gap between tokens (%s); %d literal forms; every .ucg file of the repository. "
+                "indentation, four comment placements) at every gap between tokens (%s); %d literal forms; every .ucg file of the repository; "
+                "0..3 comment groups of 1..2 lines after 4 bodies (nothing, one statement, a multi-line statement, a comment before a closing brace). "
                 "Each text is distinct; non-trivial = it parses, so the formatter ran." % (
                     len(CANON), len(GAP_SEPS), "one and two gaps at a time" if thorough else "one gap at a time", len(LITERALS)))
     viol = []
@@ -220,6 +244,7 @@ def run(ctx):
     for part in core.pmap(work_layout, lay, chunk=1):
         absorb(part)
     texts = [("literal", s) for s in LITERALS] + [("file", s) for _, s in c04.repo_sources(250000)]
+    texts += [("trailing-comments", s) for s in sorted(set(trailing_comment_texts()))]
     # whole files with own-line comments inserted between statements
     for part in core.pmap(work_texts, texts, chunk=8):
         absorb(part)
